@@ -21,11 +21,14 @@ def joinw(ws) -> str:
 
 def cont_txt(cl) -> str:
     ind = " " * cl["ind"]
+    trail = " " * cl.get("trail", 0)
+    if cl["k"] == "ws":
+        return ind
     if cl["k"] == "text":
-        return ind + joinw(cl["w"])
+        return ind + joinw(cl["w"]) + trail
     if cl["k"] == "bullet":
-        return f"{ind}{cl['mark']} {joinw(cl['w'])}"
-    return f"{ind}{cl['mark']} {cl['key']}:: {joinw(cl['w'])}"
+        return f"{ind}{cl['mark']} {joinw(cl['w'])}{trail}"
+    return f"{ind}{cl['mark']} {cl['key']}:: {joinw(cl['w'])}{trail}"
 
 
 def render_line(l) -> str:
@@ -341,6 +344,14 @@ class Gen:
                     seen_p = True
                 fixed.append(cl)
             cont = fixed
+            # trailing blanks inside a body and whitespace-only lines are part of the body verbatim (never on / as the last line;
+            # not next to property bullets, whose value would swallow them)
+            if not any(cl["k"] == "pbullet" for cl in cont):
+                for cl in cont[:-1]:
+                    if r.random() < 0.25:
+                        cl["trail"] = r.randint(1, 2)
+                if len(cont) >= 2 and r.random() < 0.25:
+                    cont.insert(r.randint(1, len(cont) - 1), {"k": "ws", "ind": r.randint(2, 4), "w": []})
             # bullets that are not property bullets must not look like one (first word ending in "::" cannot be built here)
         allw = self.scrub(words + [w for cl in cont for w in cl["w"]])
         k = len(words)
